@@ -101,7 +101,7 @@ func c01BehaviourByName(name string) (*sim.Behaviour, string) {
 }
 
 var c01Profile = opProfile{
-	browsers: 2, wNav: 5, wLogin: 4, wAuthorize: 1, wCallback: 1, wLogout: 2, wAdvance: 5, wIdP: 2, wAttack: 3,
+	browsers: 3, wNav: 5, wLogin: 4, wAuthorize: 1, wCallback: 1, wLogout: 2, wAdvance: 5, wIdP: 2, wAttack: 3,
 	attacks:    []string{"no-cookie", "unknown-id", "garbage-cookie", "stale-id", "pending-id-app", "replay-callback", "forged-callback", "near-miss-cookie-name"},
 	behaviours: c01Behaviours,
 }
